@@ -62,6 +62,39 @@ fn main() {
       let code = finish(&cfg, &rep, &findings, t0.elapsed().as_secs_f64());
       std::process::exit(code);
     }
+    "debug-siblings" => {
+      // calibration aid: how often does the siblings family produce a given relation?
+      use tmverif::layouts::*;
+      use tmverif::keys::Mapping;
+      let n: usize = args[3].parse().unwrap_or(10000);
+      let mut h = 12345u64;
+      let (mut rel_a, mut rel_b, mut loaded_n) = (0usize, 0usize, 0usize);
+      for _ in 0..n {
+        let tape: Vec<u32> = (0..300).map(|_| { h = tmverif::tape::splitmix64(h); (h >> 16) as u32 }).collect();
+        let mut src = tmverif::tape::Src::new(&tape);
+        let g = gen_family(&mut src, Family::Siblings, &LayoutOpts { allow_absorbing: true, max_alphabet: 8 });
+        let ms = &g.layout.mappings;
+        if through_loader(&g.layout).is_err() { continue; }
+        loaded_n += 1;
+        let nokey = |m: &Mapping| m.to.iter().all(|k| tmverif::kb::is_modifier(*k));
+        // (1) [.., M, .., T1] -> [.. M .. x] absorbing M, x non-modifier last
+        let one: Vec<&Mapping> = ms.iter().filter(|m| m.absorbing.iter().any(|a| m.to.contains(a)) && !nokey(m)).collect();
+        // (2)/(3): same final, (2) no key + absorbing M2, (3) later, key-producing, absorbing M2, more trigger keys
+        let mut pair = false;
+        for (i, m2) in ms.iter().enumerate() {
+          if !nokey(m2) || m2.absorbing.is_empty() { continue; }
+          for m3 in ms.iter().skip(i + 1) {
+            if m3.from.last() == m2.from.last() && !nokey(m3) && m3.absorbing.iter().any(|a| m2.absorbing.contains(a)) && m3.from.len() > m2.from.len() && m2.from.iter().all(|k| m3.from.contains(k)) {
+              pair = true;
+            }
+          }
+        }
+        if pair { rel_b += 1; }
+        if pair && one.iter().any(|m1| ms.iter().any(|m2| nokey(m2) && m2.from.last() != m1.from.last())) { rel_a += 1; }
+      }
+      println!("layouts {} loaded {} pair(2,3) {} with(1) {}", n, loaded_n, rel_b, rel_a);
+      std::process::exit(0);
+    }
     "trace" => {
       if let Err(v) = tmverif::props_mapper::trace(&args[3]) {
         eprintln!("trace failed: {}", v.detail);
